@@ -52,7 +52,7 @@ def small_rotation(axis, angle_deg):
 
 
 def rebuild(s3, *, point_fn=None, residue_fn=None, keep=None, atom_keep=None, atom_order=None,
-            chain_map=None, number_fn=None, round_to=None, model=None):
+            chain_map=None, number_fn=None, round_to=None, model=None, ident_fn=None):
     """new Structure3D from `s3`.
 
     point_fn(xyz ndarray, residue_index, atom_index) -> xyz   (rigid motion, jitter)
@@ -84,6 +84,10 @@ def rebuild(s3, *, point_fn=None, residue_fn=None, keep=None, atom_keep=None, at
             return ResidueAuth(ch, num, au.icode, au.name)
 
         label, auth = ren_label(r.label), ren_auth(r.auth)
+        if ident_fn is not None:
+            ch, num = ident_fn(ri, r.chain, r.number)
+            label = ResidueLabel(ch, num, r.label.name) if r.label is not None else None
+            auth = ResidueAuth(ch, num, r.auth.icode, r.auth.name) if r.auth is not None else None
         idxs = list(range(len(r.atoms)))
         if atom_keep is not None:
             idxs = [k for k in idxs if atom_keep(ri, k)]
